@@ -124,7 +124,10 @@ def validate_meta(records, timeout=3000):
         path = os.path.join(d, "obs.ndjson")
         with open(path, "w") as f:
             for r in records:
-                f.write(json.dumps({k: r[k] for k in ("id", "g0", "g1", "sigma", "mirror")}, separators=(",", ":")) + "\n")
+                row = {k: r[k] for k in ("id", "g0", "g1", "sigma", "mirror")}
+                row["mode"] = r.get("mode", 0)
+                row["keep"] = r.get("keep", [])
+                f.write(json.dumps(row, separators=(",", ":")) + "\n")
         res = run_tlc("Obs_Meta", cfg="Obs_Meta.cfg", env={"OBS_FILE": path}, workers=16, prefixes=("OK", "BAD"),
                       timeout=timeout, heap="12g")
     finally:
